@@ -81,6 +81,17 @@ def register(m):
       extra=[(QDEC, "from sympy import S\n", "from sympy import S\nfrom sympy.physics.units.systems.si import dimsys_SI\n", 1)],
       note="the proxy of seed b3_C04_2: a unit-less non-zero vector is dimensionless too")
     m("C04", "b4-zero-vector-any-instead-of-all", QDEC, "        elif isinstance(item, QuantityVector) and all(\n", "        elif isinstance(item, QuantityVector) and any(\n", "K3")
+    VECS = "symplyphysics/core/vectors/vectors.py"
+    INFER = ("                if CoordinateSystem.is_angle_component(coordinate_system.coord_system_type, idx):\n                    continue\n"
+             "                if not is_any_dimension(q.scale_factor):\n")
+    m("C04", "b4-vector-dimension-from-nonzero-compare", VECS, INFER, "                if q.scale_factor != 0:\n", "K8",
+      note="the genuine defect repaired in a0aff54")
+    m("C04", "b4-vector-dimension-angle-slot-not-skipped", VECS,
+      "                if CoordinateSystem.is_angle_component(coordinate_system.coord_system_type, idx):\n                    continue\n", "", "K8")
+    m("C04", "b4-vector-dimension-is-zero-only", VECS, "                if not is_any_dimension(q.scale_factor):\n", "                if not q.scale_factor.is_zero:\n", "K8")
+    m("C04", "b4-vector-dimension-one-condition-ok", VECS, INFER,
+      "                if not (CoordinateSystem.is_angle_component(coordinate_system.coord_system_type, idx) or\n"
+      "                        is_any_dimension(q.scale_factor)):\n", "SILENT")
     # C09 N1: factories hand out fresh systems
     m("C09", "b2-transform-returns-argument", CSYS,
       ") -> CoordinateSystem:\n    new_coord_system = from_system.coord_system.create_new(",
